@@ -22,13 +22,13 @@ RULE = (
     "pristine-process outcome; distinct by (call, nesting, position class hit/miss); non-trivial = calls that were cache hits or followed a failing call"
 )
 ASSUMPTIONS = ["outcome = exception class | dtype, shape, bytes of every returned tensor | graph=True text with object addresses normalised", "the pristine oracle runs with the same PYTHONHASHSEED"]
-TIMEOUT = {"quick": 1500, "thorough": 10800}
-BUDGET_S = {"quick": 240, "thorough": 5400}  # per shard: stop issuing new calls afterwards (what was observed still counts)
+TIMEOUT = {"quick": 1500, "thorough": 9000}
+BUDGET_S = {"quick": 240, "thorough": 1500}  # per shard: stop issuing new calls afterwards (what was observed still counts)
 WORKERS = 4  # fork + copy-on-write of the pristine children does not scale to 16 concurrent workers in this sandbox
 
 
 def shards(tier, seed, scale):
-    n = 4 if tier == "quick" else 32
+    n = 4 if tier == "quick" else 16
     return [{"histories": int((4 if tier == "quick" else 16) * scale) or 1, "pool": 60 if tier == "quick" else 140, "maxlen": 3} for _ in range(n)]
 
 
